@@ -270,6 +270,11 @@ def run(sh):
     for it in range(K):
         n = int(rng.integers(2, 9 if sh.tier == 'quick' else 13))
         guarded(sh, run_one, sh, make_case(rng, n, api='func' if rng.random() < 0.75 else 'obj'))
+    # every shard: an array with a single row (both APIs), sample columns not requested
+    c = make_case(rng, 1, api='func' if sh.shard % 2 == 0 else 'obj')
+    c['return_samples'] = False
+    guarded(sh, run_one, sh, c, 'single_row')
+    sh.note('single_row_array')
     # every shard: the object with its options assigned as attributes, once before any fit and once after a default fit
     for how in ('before_first_fit', 'after_a_fit'):
         c = make_case(rng, int(rng.integers(2, 6)), api='obj')
